@@ -775,6 +775,10 @@ func (s *programState) makeAllotment(monetary *big.Int, items []parser.Allotment
 	}
 
 	if remainingAllotmentIndex != -1 {
+		// the remaining clause gets what the other portions leave: they cannot leave less than nothing
+		if totalAllotment.Cmp(big.NewRat(1, 1)) == 1 {
+			return nil, InvalidAllotmentSum{ActualSum: *totalAllotment}
+		}
 		allotments[remainingAllotmentIndex] = new(big.Rat).Sub(big.NewRat(1, 1), totalAllotment)
 	} else if totalAllotment.Cmp(big.NewRat(1, 1)) != 0 {
 		return nil, InvalidAllotmentSum{ActualSum: *totalAllotment}
